@@ -211,3 +211,34 @@ package cluster
 //@   requires c != nil && c.ml != nil && c.log != nil && allocated(c.stop) && allocated(c.not) && c.not != c.stop
 //@   ensures [C19.start.notify] c.nnotify == old(c.nnotify) + 1
 //@   modifies c.nnotify
+
+// (toNode - decoding a member's metadata for the log line - is ASSUMED to leave the cluster's state alone)
+//@ func toNode
+//@   assumed
+//@   modifies nothing
+// membership events of the gossip layer (a node joined, left, changed): like Notify, each folds the
+// local raft report into the view
+//@ func (*Cluster).NotifyJoin
+//@   functype Cluster.infoF infoContract
+//@   maypanic
+//@   requires c != nil && c.shardView != nil && c.shardView.shards != nil && c.infoF != nil && c.log != nil && node != nil
+//@   requires [ok] forall id uint64 :: entryOK(entryOf(c.shardView, id)) && entryOf(c.shardView, id).ShardID == id
+//@   before (*shardView).update assert [C19.member.fold] v == c.shardView
+//@   ensures [C19.member.always] c.shardView.nupd == old(c.shardView.nupd) + 1
+//@   modifies elems(c.shardView.shards), c.shardView.nupd
+//@ func (*Cluster).NotifyLeave
+//@   functype Cluster.infoF infoContract
+//@   maypanic
+//@   requires c != nil && c.shardView != nil && c.shardView.shards != nil && c.infoF != nil && c.log != nil && node != nil
+//@   requires [ok] forall id uint64 :: entryOK(entryOf(c.shardView, id)) && entryOf(c.shardView, id).ShardID == id
+//@   before (*shardView).update assert [C19.member.fold] v == c.shardView
+//@   ensures [C19.member.always] c.shardView.nupd == old(c.shardView.nupd) + 1
+//@   modifies elems(c.shardView.shards), c.shardView.nupd
+//@ func (*Cluster).NotifyUpdate
+//@   functype Cluster.infoF infoContract
+//@   maypanic
+//@   requires c != nil && c.shardView != nil && c.shardView.shards != nil && c.infoF != nil && c.log != nil && node != nil
+//@   requires [ok] forall id uint64 :: entryOK(entryOf(c.shardView, id)) && entryOf(c.shardView, id).ShardID == id
+//@   before (*shardView).update assert [C19.member.fold] v == c.shardView
+//@   ensures [C19.member.always] c.shardView.nupd == old(c.shardView.nupd) + 1
+//@   modifies elems(c.shardView.shards), c.shardView.nupd
